@@ -75,6 +75,10 @@ def run(e: Engine, rep: Report):
     rep.rule('F6', 'IO.recv_reply consumes every line it records: each '
              'message_lines.append is followed by the consumption of that '
              'line before the buffer is refilled and rescanned')
+    rep.rule('F7', 'one server reply per Reply object: Reply.recv calls '
+             'io.recv_reply exactly once; recv_reply removes bytes from '
+             'the buffer only after a whole line (pattern ending in LF on '
+             'every alternative) matched')
     rep.not_decided += ['byte-level reply round trip (C17)',
                         'what the server actually answers']
     f1(e, rep)
@@ -82,6 +86,7 @@ def run(e: Engine, rep: Report):
     f4(e, rep)
     f5(e, rep)
     f6(e, rep)
+    f7(e, rep)
     rep.floor('F2', 14, 'command methods')
 
 
@@ -502,3 +507,28 @@ def f6(e: Engine, rep: Report):
                   'duplicated text / the next reply is mis-paired)',
                   loc=r.loc(), reason='recv_buffer advanced past the line',
                   witness=dataflow.render_path(pth) if pth else None)
+
+
+def f7(e: Engine, rep: Report):
+    from . import c09
+    c09.g2(e, rep, 'F7', meths=('recv_reply',))
+    ctx = e.method_ctx('slimta.smtp.reply.Reply', 'recv')
+    g = e.build(ctx, raises=lambda b, n, r: set())
+    where = ctx.func.qname
+    rep.functions.add(where)
+    calls = [n for n in g.calls() if e.call_name(n) == 'recv_reply']
+    rep.evaluations += 1
+    if not calls:
+        rep.error('anchor vanished: io.recv_reply in Reply.recv')
+        return
+    counts = dataflow.count_events(
+        g, lambda n: 1 if n in calls else 0, cap=3)
+    st = counts.get(g.exit.id)
+    rep.check(st == frozenset([1]), 'F7', where,
+              'Reply.recv reads exactly one reply',
+              'Reply.recv can read %s replies from the connection: a reply '
+              'object that consumes a second server reply takes the one '
+              'owed to the next command (every later reply is paired with '
+              'the wrong command, and the client reads past the last reply '
+              'it is owed)' % (sorted(st) if st else 'no'),
+              loc=calls[0].loc(), reason='one io.recv_reply() on every path')
